@@ -31,7 +31,6 @@ func init() {
 		},
 		"(*sync.WaitGroup).Done": func(in *Interp, fn *ssa.Function, a []Value) Value { syncObj(a[0]).Count--; return nil },
 		"(*sync.WaitGroup).Wait": func(in *Interp, fn *ssa.Function, a []Value) Value { in.runGoroutines(); return nil },
-		"fmt.Sprintf":            func(in *Interp, fn *ssa.Function, a []Value) Value { return concreteStr("<fmt>") },
 		"fmt.Sprint":             func(in *Interp, fn *ssa.Function, a []Value) Value { return concreteStr("<fmt>") },
 		"fmt.Errorf":             fmtErrorf,
 		"time.Now":               func(in *Interp, fn *ssa.Function, a []Value) Value { return zero(fn.Signature.Results().At(0).Type()) },
@@ -93,6 +92,7 @@ func init() {
 	}
 	delete(intrinsics, "(*sync/atomic.Uint64).Load")
 	initBig()
+	initFmt()
 	initStrBuilder()
 	initStrIntr()
 	// sync/atomic on plain words
@@ -232,6 +232,9 @@ func (in *Interp) verifCall(fn *ssa.Function, args []Value) Value {
 		return Ite(args[0].(*Term), args[1].(*Term), args[2].(*Term))
 	case "verifNote":
 		in.ctx.ex.Notes[argName()]++
+		return nil
+	case "verifFmtExact":
+		in.fmtExact = args[0].(*Term).IsTrue()
 		return nil
 	case "verifMapOrder":
 		in.mapOrder = args[0].(*Term).IsTrue()
